@@ -148,7 +148,7 @@ def base_coverage(runs, cov, cases, nontrivial, rule, validated):
 
 def check_C01(tier, seed, replay):
     res = Result()
-    runs, cov = machine_runs("C01", ["ops"], tier, seed, replay,
+    runs, cov = machine_runs("C01", ["ops", "term"], tier, seed, replay,
                              require=("Lit", "Range", "Eoi", "AnyChar", "CallChar", "SeqFail", "AltFail", "OptFail",
                                       "CloIter", "CloStop", "NegOk", "NegFail", "PosOk", "PosFail", "RuleEnter"))
     cases = [c for r in runs for c in r.cases]
@@ -223,7 +223,7 @@ def monitor(res, prop, kind, cases, tier, formula, what):
 # ---------------------------------------------------------------------------------------------- C02
 def check_C02(tier, seed, replay):
     res, runs, cases = generic(
-        "C02", ["fields"], tier, seed, replay, [lambda p, c: None if c.crashed else props.p_tree(p, c)],
+        "C02", ["fields", "ws"], tier, seed, replay, [lambda p, c: None if c.crashed else props.p_tree(p, c)],
         "field-plumbing shapes (every depth-1 tree over field atoms, sampled deeper ones, hand-written shapes, "
         "override forms) x all inputs up to the bound; non-trivial = accepted input whose tree holds a match",
         lambda c: c.exp["ok"] and c.inp != [],
@@ -276,16 +276,23 @@ def check_C05(tier, seed, replay):
         "up to the bound; non-trivial = a case of a variant with at least one memoized rule",
         lambda c: bool(c.g.meta.get("memo")), require=("MemoHit", "MemoMiss", "MemoStore"))
     # variant against variant on the real code
+    long_cases = [c for r in runs for c in r.real_only]
+    for c in long_cases:
+        c.fam = "memo"
     groups = {}
-    for c in cases:
+    for c in cases + long_cases:
         groups.setdefault((c.g.meta["base"], tuple(c.inp)), []).append(c)
     pairs = 0
     for key, cs in groups.items():
         ref = next((c for c in cs if not c.g.meta["memo"]), cs[0])
         for c in cs:
-            if c is ref or c.crashed or ref.crashed:
+            if c is ref or ref.crashed:
                 continue
             pairs += 1
+            if c.crashed:
+                res.add(Violation("C05", "MemoInvisible", "with @memoize on %s the parser does not return (%s); without it does" % (
+                    c.g.meta["memo"], c.crash_msg), c))
+                continue
             if c.ok != ref.ok:
                 res.add(Violation("C05", "MemoInvisible", "acceptance differs between memo variants %s and %s" % (
                     ref.g.meta["memo"], c.g.meta["memo"]), c))
@@ -293,6 +300,7 @@ def check_C05(tier, seed, replay):
                 res.add(Violation("C05", "MemoInvisible", "tree differs between memo variants %s and %s" % (
                     ref.g.meta["memo"], c.g.meta["memo"]), c))
     res.coverage["variant_pairs_compared"] = pairs
+    res.coverage["long_inputs_real_only"] = len(long_cases)
     # every call starts from an empty cache: same results in another call order, and hits explained
     for r in runs:
         rev = rerun_reversed(r)
@@ -300,7 +308,7 @@ def check_C05(tier, seed, replay):
             o = rev.get((c.gid, tuple(c.inp)))
             if o is not None and o.get("res") != c.act.get("res"):
                 res.add(Violation("C05", "FreshCache", "the result depends on the inputs parsed earlier in the process", c))
-    monitor(res, "C05", "cache", cases, tier, "FreshCache", "a cache hit that no entry of the current call explains")
+    monitor(res, "C05", "cache", cases + long_cases, tier, "FreshCache", "a cache hit that no entry of the current call explains")
     return res
 
 
@@ -349,10 +357,15 @@ def check_C06(tier, seed, replay):
         "offset (a cache hit happens in the model)",
         lambda c: any(h["ev"] == "info" and h["r"] == "hit" for h in c.exp.get("hist", [])),
         require=("MemoHit", "MemoMiss", "MemoStore", "CallExtern"))
-    memo_cases = [c for c in cases if c.g.meta.get("memo") and not c.crashed]
+    long_cases = [c for r in runs for c in r.real_only]
+    for c in long_cases:
+        c.fam = "memo"
+        res.add(p_packrat("C06", c))
+    memo_cases = [c for c in cases + long_cases if c.g.meta.get("memo") and not c.crashed]
     monitor(res, "C06", "packrat", memo_cases, tier, "Packrat", "a memoized body evaluated twice at one offset")
-    failing = sum(1 for c in memo_cases if any(h["ev"] == "info" and h["r"] == "hit" for h in c.exp.get("hist", []))
-                  and not c.exp["ok"])
+    failing = sum(1 for c in memo_cases if c.exp is not None and not c.exp["ok"]
+                  and any(h["ev"] == "info" and h["r"] == "hit" for h in c.exp.get("hist", [])))
+    res.coverage["long_inputs_real_only"] = len(long_cases)
     res.coverage["cases_with_hit_on_failing_parse"] = failing
     return res
 
@@ -441,7 +454,7 @@ def p_ranges_nest(prop, c):
 
 def check_C09(tier, seed, replay):
     res, runs, cases = generic(
-        "C09", ["pos", "ws"], tier, seed, replay, [p_ranges],
+        "C09", ["pos", "ws", "uni", "user"], tier, seed, replay, [p_ranges],
         "every subset of @position marks on struct / @string / enum-override rules, memoized and left-recursive "
         "replays, multi-byte characters and whitespace at rule boundaries x all inputs up to the bound; non-trivial = "
         "accepted input whose tree carries at least two ranges",
@@ -489,7 +502,7 @@ def p_error(prop, c):
 
 def check_C10(tier, seed, replay):
     res, runs, cases = generic(
-        "C10", ["ops", "memo", "lr", "user"], tier, seed, replay, [p_error],
+        "C10", ["ops", "fields", "memo", "lr", "user", "inc"], tier, seed, replay, [p_error],
         "all failing inputs of the operator, memo, left-recursion and user-function families (every template's error "
         "bookkeeping: optional, closure end, failed alternative, lookaheads, @char classes, check failures, externs); "
         "non-trivial = failing parse with failed attempts at two or more distinct offsets",
